@@ -223,8 +223,9 @@ struct qs_agent {
 			if(ctr < node->_target_qs_counter)
 				break;
 			node->_target_qs_counter = 0;
-			node->on_grace_period(node);
+			// Unlink the node first: the callback is free to destroy or reuse it.
 			_pending.pop_front();
+			node->on_grace_period(node);
 		}
 	}
 
